@@ -1,1 +1,243 @@
-/-! C18 - property theorems (declared with their full name `C18.<name>`; helper lemmas go to Lemmas/) -/
+import CohdlVerif.Lemmas.C18Batch
+/-!
+  C18 - property theorems: the mirrors of the std combinational helpers (Model/C18.lean, same recursion
+  structure as cohdl/std/_core_utility.py and _crc.py) equal their mathematical definitions, for ALL
+  widths / lengths / batch sizes.  Bit vectors are `List Bool`, least significant bit first.
+  Hypotheses are exactly the guards under which the real helpers return a value (non-empty vector,
+  batch size ≥ 1, shift ≤ width, ...); outside them the mirrors answer `none` like the Python code raises
+  (tied by the harness, family "excluded-arguments").
+  Helper lemmas: Lemmas/C18Fold.lean, C18Count.lean, C18Select.lean, C18More.lean.
+-/
+open CohdlVerif.C18
+
+/-! ## folds -/
+
+/-- `binary_fold` (left and `right_fold=True`) = sequential left fold, for associative operators -/
+theorem C18.binary_fold_eq_foldl {α : Type} (f : α → α → α) (hf : ∀ a b c, f (f a b) c = f a (f b c))
+    (l : List α) (hl : l ≠ []) : binaryFold f l = foldl1 f l ∧ binaryFoldR f l = foldl1 f l := by
+  obtain ⟨r, hr, ht⟩ := binaryFold_tree f l hl
+  obtain ⟨r', hr', ht'⟩ := binaryFoldR_tree f l hl
+  have h1 := ht.eq_foldl1 hf
+  have h2 := ht'.eq_foldl1 hf
+  rw [hr, hr', h1]; exact ⟨rfl, h2.symm.trans h1⟩
+
+example : binaryFold (· ++ ·) [[1], [2], [3, 4]] = some [1, 2, 3, 4] := by
+  rw [(C18.binary_fold_eq_foldl _ (fun a b c => List.append_assoc a b c) _ (by simp)).1]; rfl
+
+/-- `batched_fold` with ANY batch size ≥ 1 (first level with `batch_size`, all further levels with the default 2,
+    last batch possibly shorter) = sequential left fold, for associative operators -/
+theorem C18.batched_fold_eq_foldl {α : Type} (f : α → α → α) (hf : ∀ a b c, f (f a b) c = f a (f b c))
+    (bs : Nat) (hbs : 1 ≤ bs) (l : List α) (hl : l ≠ []) : batchedFold f bs l = foldl1 f l := by
+  obtain ⟨r, hr, ht⟩ := batchedFold_tree f bs l hbs hl
+  rw [hr, ht.eq_foldl1 hf]
+
+/-- without associativity: the result is still the value of a bracketing that keeps every operand exactly once and
+    in order (no batch boundary is dropped or duplicated) -/
+theorem C18.batched_fold_is_bracketing {α : Type} (f : α → α → α) (bs : Nat) (hbs : 1 ≤ bs) (l : List α) (hl : l ≠ []) :
+    ∃ r, batchedFold f bs l = some r ∧ FoldTree f l r := batchedFold_tree f bs l hbs hl
+
+example : batchedFold (· ++ ·) 3 [[1], [2], [3], [4], [5], [6], [7]] = some [1, 2, 3, 4, 5, 6, 7] := by
+  rw [C18.batched_fold_eq_foldl _ (fun a b c => List.append_assoc a b c) 3 (by omega) _ (by simp)]; rfl
+
+/-! ## population counts -/
+
+/-- `count_set_bits` / `count_clear_bits`: per-batch lookup + widening adders + final truncation = population count,
+    at width `bit_length(width)`, for every width ≥ 1 and every batch size ≥ 1 -/
+theorem C18.popcount_batched (bs : Nat) (hbs : 1 ≤ bs) (bits : Bits) (hb : bits ≠ []) :
+    countSetBits bs bits = some ⟨bitLen bits.length, popcount bits⟩ ∧
+    countClearBits bs bits = some ⟨bitLen bits.length, bits.length - popcount bits⟩ :=
+  ⟨countSetBits_eq bs bits hbs hb, countClearBits_eq bs bits hbs hb⟩
+
+example : countSetBits 3 [true, false, true, true, false, true, true] = some ⟨3, 5⟩ := by
+  rw [(C18.popcount_batched 3 (by omega) _ (by simp)).1]; rfl
+
+/-! ## leading / trailing counts -/
+
+theorem C18.ctz_spec (bits : Bits) :
+    ctz bits = ⟨uptoW bits.length, trailingRun false bits⟩ ∧ cto bits = ⟨uptoW bits.length, trailingRun true bits⟩ := by
+  unfold ctz cto
+  rw [countWhile_eq, countWhile_eq, countWhileSpec_bool, countWhileSpec_bool]; exact ⟨rfl, rfl⟩
+
+/-- count_leading_zeros / ones = length of the run at the most significant end (the all-zero / all-one vector gives
+    the full width) -/
+theorem C18.clz_spec (bits : Bits) (hb : bits ≠ []) :
+    clz bits = some ⟨uptoW bits.length, leadingRun false bits⟩ ∧ clo bits = some ⟨uptoW bits.length, leadingRun true bits⟩ := by
+  unfold clz clo
+  rw [reverseBits_eq bits hb]
+  simp only [Option.map_some, countWhile_eq, countWhileSpec_bool, List.length_reverse]
+  exact ⟨rfl, rfl⟩
+
+example : clz [true, false, false] = some ⟨2, 2⟩ := by rw [(C18.clz_spec _ (by simp)).1]; rfl
+example : leadingRun false [false, false, false] = 3 := by decide
+
+/-! ## concat / reverse_bits -/
+
+theorem C18.concat_spec (parts : List Bits) (h : parts ≠ []) : concatM parts = some (concatSpec parts) :=
+  concatM_eq parts h
+
+theorem C18.reverse_bits_spec (bits : Bits) (hb : bits ≠ []) : reverseBits bits = some bits.reverse :=
+  reverseBits_eq bits hb
+
+/-! ## minimum / maximum / min_element / max_element / min_index / max_index -/
+
+/-- the reversed batched fold with "strictly smaller keeps left" returns the FIRST extremum: with
+    `keys = pre ++ v :: post` and index `pre.length`, every earlier key is strictly worse and no key is better -/
+theorem C18.min_max_first_wins (keys : List Int) (h : keys ≠ []) :
+    (∃ i v pre post, extElement ltI keys = some (i, v) ∧ keys = pre ++ v :: post ∧ i = pre.length ∧
+        (∀ x ∈ pre, v < x) ∧ (∀ x ∈ keys, v ≤ x)) ∧
+    (∃ i v pre post, extElement gtI keys = some (i, v) ∧ keys = pre ++ v :: post ∧ i = pre.length ∧
+        (∀ x ∈ pre, x < v) ∧ (∀ x ∈ keys, x ≤ v)) := by
+  constructor
+  · obtain ⟨i, v, pre, post, h1, h2, h3, h4, h5⟩ := extElement_spec ltI_sw keys h
+    refine ⟨i, v, pre, post, h1, h2, h3, ?_, ?_⟩
+    · intro x hx; have := h4 x hx; simpa [ltI] using this
+    · intro x hx; have := h5 x hx; simp only [ltI, decide_eq_false_iff_not] at this; omega
+  · obtain ⟨i, v, pre, post, h1, h2, h3, h4, h5⟩ := extElement_spec gtI_sw keys h
+    refine ⟨i, v, pre, post, h1, h2, h3, ?_, ?_⟩
+    · intro x hx; have := h4 x hx; simpa [gtI] using this
+    · intro x hx; have := h5 x hx; simp only [gtI, decide_eq_false_iff_not] at this; omega
+
+example : minSpec [5, 2, 7, 2] = some 2 ∧ firstIdxOf 2 [5, 2, 7, 2] = 1 := by decide
+example : maxSpec [5, 7, 7, 2] = some 7 ∧ firstIdxOf 7 [5, 7, 7, 2] = 1 := by decide
+
+/-! ## count / clamp -/
+
+theorem C18.count_clamp_spec :
+    (∀ (l : List Nat) (v : Nat), countM l v = some (countSpec l v)) ∧
+    (∀ v lo hi : Int, lo ≤ hi → clampM v lo hi = clampSpec v lo hi) :=
+  ⟨fun l v => countM_eq l v, clampM_eq⟩
+
+example : countM [3, 1, 3, 3, 0] 3 = some ⟨3, 3⟩ := by rw [C18.count_clamp_spec.1]; rfl
+
+/-! ## count_elements_while / until, choose_first / select / cond -/
+
+theorem C18.count_elements_spec (seq : List Nat) (val : Nat) :
+    countWhile seq val = ⟨uptoW seq.length, countWhileSpec seq val⟩ ∧
+    countUntil seq val = ⟨uptoW seq.length, countUntilSpec seq val⟩ :=
+  ⟨countWhile_eq seq val, countUntil_eq seq val⟩
+
+/-- `_first_impl` = value of the first pair whose condition holds, else the default; `select` = lookup; `cond` = if -/
+theorem C18.choose_first_spec {α : Type} (l : List (Bool × α)) (d : α) :
+    firstImpl l d = chooseFirstSpec l d ∧
+    (∀ (arg : Nat) (br : List (Nat × α)), selectM arg br d = ((br.find? (·.1 == arg)).map (·.2)).getD d) ∧
+    (∀ (c : Bool) (a b : α), condM c a b = if c then a else b) := by
+  refine ⟨firstImpl_eq l d, ?_, fun c a b => rfl⟩
+  intro arg br
+  unfold selectM
+  induction br with
+  | nil => rfl
+  | cons x r ih =>
+    obtain ⟨k, v⟩ := x
+    simp only [List.lookup_cons, List.find?_cons]
+    by_cases h : arg = k
+    · subst h; simp
+    · have h1 : (arg == k) = false := by simpa using h
+      have h2 : (k == arg) = false := by simpa using fun e => h e.symm
+      simp only [h1, h2]; exact ih
+
+/-! ## apply_mask -/
+
+theorem C18.apply_mask_spec (old new mask : Bits) (h1 : old.length = new.length) (h2 : old.length = mask.length) :
+    applyMask old new mask = some (applyMaskSpec old new mask) := applyMask_eq old new mask h1 h2
+
+example : applyMask [true, true, false] [true, false, true] [false, true, true] = some [true, false, true] := by decide
+
+/-! ## BitwiseCrc -/
+
+/-- `update_multiple(*data)` (`_calc_steps`) = `update` iterated over the bits, the first one first -/
+theorem C18.crc_multi_eq_iterated_single (poly reg : Bits) (data : List Bool) (h : data ≠ []) :
+    calcSteps poly reg data = some (crcIter poly reg data) := calcSteps_eq_iter poly data reg h
+
+/-! ## rol / ror -/
+
+/-- `rol(inp, n)` moves bit i to position (i + n) mod w, `ror` the other way, for every width and every 0 ≤ n ≤ w;
+    rotating back restores the vector -/
+theorem C18.rol_ror_spec (bits : Bits) (n : Nat) (hn : n ≤ bits.length) :
+    rolM bits n = some (rolSpec bits n) ∧ rorM bits n = some (rorSpec bits n) ∧
+    (rolM bits n).bind (fun r => rorM r n) = some bits :=
+  ⟨rolM_eq bits n hn, rorM_eq bits n hn, ror_rol bits n hn⟩
+
+example : rolM [true, false, false, true, false] 2 = some [true, false, true, false, false] := by decide
+
+/-! ## one_hot / is_one_hot -/
+
+/-- `one_hot(width, pos)` has exactly bit `pos` set; `is_one_hot` (lookup in the table of all one-hot patterns) holds
+    iff exactly one bit is set -/
+theorem C18.one_hot_spec :
+    (∀ w p, p < w → oneHot w p = some (oneHotSpec w p)) ∧ (∀ bits : Bits, isOneHot bits = isOneHotSpec bits) :=
+  ⟨oneHot_eq, isOneHot_eq⟩
+
+example : oneHotSpec 4 2 = [false, false, true, false] := by decide
+
+/-! ## lshift_fill / rshift_fill -/
+
+/-- `lshift_fill(val, fill)`: the fill occupies the low `width(fill)` bits, the old bits move up (the top ones drop out);
+    `rshift_fill`: the old bits move down, the fill occupies the top.  Stated per bit, for every pair of widths with
+    width(fill) ≤ width(val).  (The value form `(v * 2^wf + f) mod 2^wv` used by the harness oracle is tied by the
+    correspondence run only.) -/
+theorem C18.shift_fill_spec (val fill : Bits) (h : fill.length ≤ val.length) :
+    (∃ r, lshiftFill val fill = some r ∧ r.length = val.length ∧
+      ∀ i (hi : i < r.length), r[i] = if i < fill.length then fill.getD i false else val.getD (i - fill.length) false) ∧
+    (∃ r, rshiftFill val fill = some r ∧ r.length = val.length ∧
+      ∀ i (hi : i < r.length), r[i] = if i < val.length - fill.length then val.getD (i + fill.length) false
+                                      else fill.getD (i - (val.length - fill.length)) false) :=
+  ⟨lshiftFill_bits val fill h, rshiftFill_bits val fill h⟩
+
+example : lshiftFill [true, true, false, false] [false, true] = some [false, true, true, true] := by decide
+
+/-! ## batched -/
+
+/-- `batched(input, n, allow_partial)` = consecutive groups of n bits from bit 0 (concatenating them gives the input back,
+    every group has at most n bits and is non-empty); `select_batch(input, sel, bs)` (mask with the stretched selector,
+    OR-fold of the batches): result bit i = OR over the batches j whose selector bit is set of input bit j*bs+i - for a
+    one-hot selector the selected batch -/
+theorem C18.batched_select_spec (bits : Bits) (n : Nat) (allow : Bool) (hn : 1 ≤ n)
+    (hok : allow = true ∨ bits.length % n = 0) :
+    batched bits n allow = some (chunks n bits) ∧ (chunks n bits).flatten = bits ∧
+    (∀ c ∈ chunks n bits, c ≠ [] ∧ c.length ≤ n) ∧
+    (∀ sel : Bits, sel ≠ [] → bits.length = sel.length * n → selectBatch bits sel n = some (selectBatchSpec bits sel n)) :=
+  ⟨batched_eq_chunks bits n allow hn hok, chunks_flatten n hn bits,
+   fun c hc => batchArgsF_mem n hn bits.length bits c hc,
+   fun sel hs hl => selectBatch_eq bits sel n hn hs hl⟩
+
+example : selectBatchSpec [true, false, false, true, true, true] [false, true, false] 2 = [false, true] := by decide
+example : batched [true, false, true, true, false] 2 true = some [[true, false], [true, true], [false]] := by decide
+
+/-! ## repeat / stretch / leftpad / rightpad / pad -/
+
+/-- `repeat(val, times)` (powers of two of `val` selected by the binary digits of `times`, concatenated) = `times` copies,
+    for every `times ≥ 1` -/
+theorem C18.repeat_spec (val : Bits) (times : Nat) (ht : 1 ≤ times) : repeatM val times = some (repeatSpec val times) :=
+  repeatM_eq val times ht
+
+example : repeatM [true, false] 5 = some (repeatSpec [true, false] 5) := C18.repeat_spec _ 5 (by omega)
+example : repeatSpec [true, false] 3 = [true, false, true, false, true, false] := by decide
+
+/-- `stretch` repeats every bit `factor` times in place; `leftpad` / `rightpad` / `pad` add the fill bit at the most /
+    least significant end (any widths, any fill) -/
+theorem C18.stretch_pad_spec (bits : Bits) (hb : bits ≠ []) (fill : Bool) :
+    (∀ f, 1 ≤ f → stretchM bits f = some (stretchSpec bits f)) ∧
+    (∀ f b, 1 ≤ f → stretchBit b f = some (List.replicate f b)) ∧
+    (∀ rw, bits.length ≤ rw → leftpadM bits rw fill = some (padSpec bits (rw - bits.length) 0 fill)) ∧
+    (∀ rw, bits.length ≤ rw → rightpadM bits rw fill = some (padSpec bits 0 (rw - bits.length) fill)) ∧
+    (∀ l r, padM bits l r fill = some (padSpec bits l r fill)) :=
+  ⟨fun f hf => stretchM_eq bits f hf hb, fun f b hf => stretchBit_eq b f hf,
+   fun rw h => leftpadM_eq bits rw fill h, fun rw h => rightpadM_eq bits rw fill h, fun l r => padM_eq bits l r fill⟩
+
+example : stretchSpec [true, false] 3 = [true, true, true, false, false, false] := by decide
+example : padSpec [true, false] 2 1 true = [true, true, false, true, true] := by decide
+
+/-- the bitwise-polynomial-division definition: whatever the grouping of the bits into `update` / `update_multiple`
+    calls, the register started at `init` holds, after the bits `msg`, the remainder of (init·x^n + msg(x))·x^w divided by
+    x^w + poly(x) over GF(2) (`polyRem` = schoolbook long division, most significant coefficient first) -/
+theorem C18.crc_eq_polynomial_division (poly init : Bits) (msg : List Bool) (hw : 1 ≤ poly.length)
+    (h : init.length = poly.length) :
+    crcIter poly init msg = crcSpec poly init msg ∧
+    (msg ≠ [] → calcSteps poly init msg = some (crcSpec poly init msg)) ∧
+    (∀ m₁ m₂, msg = m₁ ++ m₂ → crcIter poly (crcIter poly init m₁) m₂ = crcSpec poly init msg) := by
+  have h1 := crcIter_eq_spec poly init msg hw h
+  refine ⟨h1, fun hne => by rw [calcSteps_eq_iter poly msg init hne, h1], ?_⟩
+  intro m₁ m₂ hm
+  rw [← h1, hm]; simp [crcIter, List.foldl_append]
+
+example : crcSpec [true, true, false] [false, true, true] [true, false] = [true, true, false] := by decide
